@@ -58,6 +58,8 @@ struct AttemptRec {
     planned: Option<Outcome>,
     accepted: usize,
     requests: usize,
+    /// requests that arrived on a connection that had already gone silent
+    on_hung_connection: usize,
     reply: Option<Reply>,
 }
 
@@ -119,12 +121,20 @@ fn read_request(s: &mut TcpStream) -> Option<(OHeader, Vec<u8>)> {
 
 fn serve_conn(shared: Arc<NodeShared>, mut s: TcpStream) {
     let _ = s.set_nodelay(true);
+    // A connection that went silent stays silent (a hung connection): whatever arrives
+    // on it later is read and never answered. "Reachable again" means that a *new*
+    // connection is answered, which is what a fleet must fall back to after a timeout.
+    let mut hung = false;
     loop {
         let Some((h, query)) = read_request(&mut s) else {
             return;
         };
         shared.served.fetch_add(1, Ordering::SeqCst);
         shared.note(|a| a.requests += 1);
+        if hung {
+            shared.note(|a| a.on_hung_connection += 1);
+            continue;
+        }
         let outcome = (*shared.current.lock().unwrap()).unwrap_or(Outcome::Success);
         let ok_body = serde_json::to_vec(&json!({"ok": true, "n": shared.served.load(Ordering::SeqCst)})).unwrap();
         match outcome {
@@ -156,6 +166,7 @@ fn serve_conn(shared: Arc<NodeShared>, mut s: TcpStream) {
             }
             Outcome::Silent => {
                 // read on, never reply
+                hung = true;
             }
             Outcome::AcceptThenClose | Outcome::Refused => {
                 // a request that arrives on an existing connection while the node
